@@ -127,6 +127,44 @@ func c04Oracle(c c04Case) error {
 			return err
 		}
 	}
+	// The same holds for snapshots constructed directly from this one: the same *Snapshot with
+	// some goroutines filtered out (a caller hiding runtime goroutines, say) and aggregated
+	// again, the full list put back, a shallow copy with another list, and no goroutine at all.
+	all := s.Goroutines
+	for parity := 0; parity < 2 && len(all) >= 2; parity++ {
+		var keep []*stack.Goroutine
+		for i, g := range all {
+			if i%2 == parity {
+				keep = append(keep, g)
+			}
+		}
+		s.Goroutines = keep
+		for _, l := range allLevels {
+			if _, err := c04Check(s, l); err != nil {
+				return fmt.Errorf("after aggregating, the snapshot's goroutine list was reduced to %d of %d and aggregated again: %v", len(keep), len(all), err)
+			}
+		}
+		cp := *s
+		cp.Goroutines = all
+		for _, l := range allLevels {
+			if _, err := c04Check(&cp, l); err != nil {
+				return fmt.Errorf("shallow copy of an aggregated snapshot with the full goroutine list: %v", err)
+			}
+		}
+	}
+	s.Goroutines = all
+	for _, l := range allLevels {
+		if _, err := c04Check(s, l); err != nil {
+			return fmt.Errorf("goroutine list restored and aggregated again: %v", err)
+		}
+	}
+	empty := *s
+	empty.Goroutines = nil
+	for _, l := range allLevels {
+		if _, err := c04Check(&empty, l); err != nil {
+			return fmt.Errorf("snapshot without goroutines: %v", err)
+		}
+	}
 	return nil
 }
 
